@@ -451,7 +451,7 @@ class NumericValue(Value):
             self.int = int(data.group("value"), 2)
             if bit_length == 8 and size_hint is None:
                 self.size_hint = 2
-                if self.explict_addressing_mode != ExplicitAddressingMode.IMMEDIATE:
+                if self.explict_addressing_mode not in [ExplicitAddressingMode.IMMEDIATE, ExplicitAddressingMode.EXPLICIT_EXTENDED]:
                     self.explict_addressing_mode = ExplicitAddressingMode.DIRECT
             return
 
@@ -462,7 +462,7 @@ class NumericValue(Value):
                 raise ValueTypeError("hex value length cannot exceed 4 characters")
             if len(data.group("value")) == 2 and size_hint is None:
                 self.size_hint = 2
-                if self.explict_addressing_mode != ExplicitAddressingMode.IMMEDIATE:
+                if self.explict_addressing_mode not in [ExplicitAddressingMode.IMMEDIATE, ExplicitAddressingMode.EXPLICIT_EXTENDED]:
                     self.explict_addressing_mode = ExplicitAddressingMode.DIRECT
             if self.explict_addressing_mode == ExplicitAddressingMode.NONE:
                 self.explict_addressing_mode = ExplicitAddressingMode.EXTENDED
